@@ -3,6 +3,8 @@ package props
 import (
 	"bytes"
 	"fmt"
+	"github.com/wrgl/wrgl/pkg/objects"
+	"github.com/wrgl/wrgl/pkg/ref"
 	"strings"
 
 	"github.com/wrgl/wrgl/pkg/verifhook"
@@ -43,6 +45,58 @@ func c09Run(c *fw.Case, env *fw.Env) *fw.Obs {
 	}
 	class := netClass(&p)
 	args := netArgs(w, &p)
+	if p.Pre == "shallow-fetch" && p.Op == "fetch" && len(w.plans) > 0 && w.plans[0].Remote >= 0 {
+		// the branch was fetched before, shallowly, when it stood at an ancestor of where it stands now
+		pl := w.plans[0]
+		mid := pickByRelation(rng, w.h, pl.Remote, "remote-ahead")
+		if p.PreMid > 0 {
+			mid = p.PreMid
+		}
+		if mid >= 0 && pl.Local < 0 {
+			ref.SaveRef(w.remoteRS, "heads/"+pl.Name, w.h.sums[mid], "setup", "s@x", "setup", "earlier position", nil)
+			pre := []string{"fetch", "origin", "refs/heads/" + pl.Name + ":refs/remotes/origin/" + pl.Name, "--depth", "1", "--no-progress"}
+			if out, err, pn := mon.Wrgl(w.localDir, nil, pre...); err != nil || pn != "" {
+				o.Status = "inconclusive"
+				o.Note = fmt.Sprintf("preparatory shallow fetch: %v %s %s", err, pn, tailStr(out, 300))
+				return o
+			}
+			ref.SaveRef(w.remoteRS, "heads/"+pl.Name, w.h.sums[pl.Remote], "setup", "s@x", "setup", "current position", nil)
+			o.Ev("fetches_after_an_earlier_shallow_fetch", 1)
+			class += "/after-shallow-fetch"
+		}
+	}
+	if p.ShallowLocal > 0 && p.Op == "push" {
+		// a shallow clone: some commits below the tips have no table locally
+		if lh, err := w.localHandle(); err == nil {
+			tips := map[int]bool{}
+			for _, pl := range w.plans {
+				tips[pl.Remote] = true
+			}
+			removed := 0
+			for i := range w.h.sums {
+				if removed < p.ShallowLocal && !tips[i] && objects.CommitExist(lh.DB, w.h.sums[i]) && rng.Intn(2) == 0 {
+					isTipTable := false
+					for t := range tips {
+						if t >= 0 && bytes.Equal(w.h.tables[t], w.h.tables[i]) {
+							isTipTable = true
+						}
+					}
+					if isTipTable {
+						continue
+					}
+					for _, pre := range []string{"tbl/", "tblidx/", "tblsum/"} {
+						lh.DB.Delete(append([]byte(pre), w.h.tables[i]...))
+					}
+					removed++
+				}
+			}
+			lh.Close()
+			if removed > 0 {
+				o.Ev("pushes_from_a_shallow_clone", 1)
+				class += "/shallow-clone"
+			}
+		}
+	}
 	if p.FailAt > 0 {
 		// a first attempt is interrupted by a failing store write on the receiving side; the attempt judged below is
 		// the one the user runs next
@@ -79,6 +133,21 @@ func c09Run(c *fw.Case, env *fw.Env) *fw.Obs {
 		o.Set("relations", pl.Relation)
 	}
 	o.Sample = map[string]interface{}{"op": p.Op, "commits": p.N, "plans": rel, "depth": p.Depth, "force": p.Force, "max_pack": p.MaxPack, "haves_per_round_trip": p.HavesRT, "args": args, "output": tailStr(out.out, 400), "error": fmt.Sprint(out.err)}
+	if out.panicText != "" && strings.HasSuffix(class, "/shallow-clone") && strings.Contains(out.panicText, "no remote found for table") {
+		// wrgl refuses to push commits whose tables it does not have; when it cannot name the remote they came from, the
+		// refusal takes the form of a panic (noted in DESIGN, outside the statement): the push did not succeed, so the
+		// receiver must be untouched
+		o.Ev("shallow_pushes_refused_by_panic", 1)
+		if len(out.afterRecv) != len(out.beforeRecv) {
+			o.Violate("refused-push-left-objects/"+class, "the push was refused but the receiver went from %d to %d objects", len(out.beforeRecv), len(out.afterRecv))
+		}
+		for name, v := range out.refsAfter.vals {
+			if out.refsBefore.vals[name] != v {
+				o.Violate("refused-push-moved-ref/"+class, "the push was refused but ref %s moved", name)
+			}
+		}
+		return o
+	}
 	if out.panicText != "" {
 		o.Violate("panic/"+class, "%v: %s", args, out.panicText)
 		return o
@@ -250,6 +319,26 @@ func init() {
 				l.Add("fetch", netParams{Op: "fetch", N: 5, BaseRows: 300, Branches: 1, Rel: "new", FailAt: k, FailFrom: i%2 == 0}, int64(2200+i))
 				l.Add("push", netParams{Op: "push", N: 5, BaseRows: 300, Branches: 1, Rel: "new", FailAt: k, FailFrom: i%2 == 1}, int64(2300+i))
 			}
+			// fixed: a branch fetched shallowly at an earlier position, then fetched again in full after it moved on
+			for i := 0; i < 10; i++ {
+				l.Add("fetch", netParams{Op: "fetch", N: 8 + i%5, BaseRows: 4, Branches: 1, Rel: "new", Pre: "shallow-fetch"}, int64(2400+i))
+			}
+			// ... where the new tip reverts to the table of a commit the earlier fetch left shallow
+			chain := func(n int) [][]int {
+				sh := [][]int{{}}
+				for i := 1; i < n; i++ {
+					sh = append(sh, []int{i - 1})
+				}
+				return sh
+			}
+			for i := 0; i < 12; i++ {
+				n := 5 + i%4
+				mid := 2 + i%(n-3)
+				l.Add("fetch", netParams{Op: "fetch", BaseRows: []int{4, 300}[i%2], Shape: chain(n), RevertTo: map[int]int{n - 1: i % mid}, Pre: "shallow-fetch", PreMid: mid, HavesRT: 256}, int64(2450+i))
+			}
+			for i := 0; i < 6; i++ {
+				l.Add("push", netParams{Op: "push", N: 7 + i%4, BaseRows: 4, Branches: 1, Rel: "new", ShallowLocal: 1 + i%2}, int64(2500+i))
+			}
 			for i := 0; i < l.N(60, 4000); i++ {
 				p := netParams{N: 3 + rng.Intn(10), BaseRows: []int{4, 30, 300}[rng.Intn(3)], Branches: 1 + rng.Intn(3), MaxPack: packs[rng.Intn(len(packs))], Tags: rng.Intn(3) == 0}
 				switch rng.Intn(10) {
@@ -274,6 +363,9 @@ func init() {
 				}
 				if p.Op != "pull" && rng.Intn(4) == 0 {
 					p.FailAt, p.FailFrom = 1+rng.Intn(40), rng.Intn(2) == 0
+				}
+				if p.Op == "push" && rng.Intn(5) == 0 {
+					p.ShallowLocal = 1 + rng.Intn(2)
 				}
 				if i%25 == 0 && p.Op == "fetch" {
 					p.Slow = true
